@@ -1,6 +1,8 @@
 """Per-property level and explanation strings used in the evidence files."""
-LEVELS = {"C02": "proof", "C03": "proof", "C16": "proof", "C18": "other", "C10": "other", "C11": "proof", "C09": "other", "C19": "other", "C05": "other", "C07": "other", "C04": "other"}
+LEVELS = {"C02": "proof", "C03": "proof", "C16": "proof", "C18": "other", "C10": "other", "C11": "proof", "C09": "other", "C19": "other", "C05": "other", "C07": "other", "C04": "other", "C12": "other", "C01": "other"}
 EXPLAIN = {
+    "C12": "flag-dependent promises of the contracted converters / parsers: discharged except the listed known finding; the subset clause and date/time converters are not decided",
+    "C01": "type conformance of the contracted converters and element-wise specs of the container parsers: discharged; no induction over all declared types, remaining converters not under contract",
     "C07": "Schema mutators vs the two-view state model and the dict-mutator audits: every obligation discharged; @property fields and DataClass closures only at interface level",
     "C04": "exceptional frames of the contracted parse-path functions: discharged except the listed known findings; converter-loop termination and call wrappers not decided",
     "C09": "combinator semantics: every obligation of logical_parse discharged for all inputs (abstract leaves); the construction algebra (combine, operators) is not under contract",
